@@ -2548,11 +2548,12 @@ class TupleParser:
         CIMType = type_from_name(cimtype)
         try:
             value = CIMType(value)
-        except ValueError as exc:
+        except (ValueError, OverflowError) as exc:
+            # OverflowError: integer value too large for a real type
             new_exc = CIMXMLParseError(
                 _format("Cannot convert value {0!A} to numeric CIM type {1}: "
                         "{2}",
-                        value, cimtype, exc),
+                        data, cimtype, exc),
                 conn_id=self.conn_id)
             new_exc.__cause__ = None
             raise new_exc
